@@ -6,11 +6,13 @@ C27 — Compiling and running any input never crashes.
 What is proved here is about the model `sem` (typecheck + resolve + run).  The
 ANTLR parser and the byte-code level are NOT modelled: arbitrary bytes are covered
 only by the `malformed` workload (real compiler + VM under recover and a timeout).
-The real code DOES panic on two kinds of valid programs; the model predicts both
-(`Err.panic`), see the counterexample theorems.
+The real code used to panic on two kinds of valid programs (repaired by commits
+9fd408d and e8d28b8); the pre-fix variant of the model predicts both.
 -/
 namespace Ledger.C27
 open Ledger.Machine
+
+variable {cfg : Cfg}
 
 /-- The error of a run, for `decide`-able statements. -/
 def errOf (r : Except Err Result) : Option Err :=
@@ -23,15 +25,15 @@ def errOf (r : Except Err Result) : Option Err :=
     script and input yields a result or an explicit error value.  This says nothing
     about the Go code by itself; the tie is the correspondence run. -/
 theorem exec_total (s : Script) (inp : Input) :
-    (∃ r, sem s inp = .ok r) ∨ (∃ e, sem s inp = .error e) := by
-  cases h : sem s inp with
+    (∃ r, sem cfg s inp = .ok r) ∨ (∃ e, sem cfg s inp = .error e) := by
+  cases h : sem cfg s inp with
   | ok r => exact Or.inl ⟨r, rfl⟩
   | error e => exact Or.inr ⟨e, rfl⟩
 
 /-- A failing run returns no result at all: no postings, no metadata (the adapter
     returns `nil, err`; `resultNil` is checked on the real code for every failing case). -/
-theorem error_leaves_no_postings (s : Script) (inp : Input) (e : Err) (h : sem s inp = .error e) :
-    postingsOf (sem s inp) = none := by
+theorem error_leaves_no_postings (s : Script) (inp : Input) (e : Err) (h : sem cfg s inp = .error e) :
+    postingsOf (sem cfg s inp) = none := by
   rw [h]; rfl
 
 /-- Runtime type of a value. -/
@@ -171,9 +173,9 @@ theorem welltyped_expr_no_fault (ds : Decls) (env : Env) (henv : EnvTyped ds env
 /-- The full claim "a compiled program never panics / faults".  It is FALSE of the
     real code (two counterexamples below); the statement-level no-fault part is not
     proved yet (only `welltyped_expr_no_fault`). -/
-def welltyped_no_stack_fault : Prop :=
+def welltyped_no_stack_fault (cfg : Cfg) : Prop :=
   ∀ (s : Script) (inp : Input) (ds : Decls), typecheck s = .ok ds →
-    ∀ w, sem s inp ≠ .error (.panic w) ∧ sem s inp ≠ .error (.fault w)
+    ∀ w, sem cfg s inp ≠ .error (.panic w) ∧ sem cfg s inp ≠ .error (.fault w)
 
 /-- Defect 1 (confirmed on the real code: nil-pointer dereference in OP_TAKE): two
     `balance()` variables on one account leave the first one with a nil amount. -/
@@ -191,31 +193,36 @@ def nilNumberScript : Script :=
 def emptyInput (vars : List (String × String)) : Input :=
   { vars := vars, balance := fun _ _ => 0, accountMeta := fun _ => none }
 
-theorem welltyped_no_stack_fault_counterexample :
-    errOf (sem nilAmountScript (emptyInput [])) = some (.panic "nil-amount") ∧
-    errOf (sem nilNumberScript (emptyInput [("n", "null")])) = some (.panic "nil-number") := by
-  constructor <;> decide +kernel
+/-- The two defects, as statements about the PRE-FIX variant of the model (both were
+    confirmed on the real code before commits 9fd408d / e8d28b8); the current variant
+    runs the first script and rejects the second with an ordinary error. -/
+theorem welltyped_no_stack_fault_prefix_counterexample :
+    errOf (sem Cfg.preFix nilAmountScript (emptyInput [])) = some (.panic "nil-amount") ∧
+    errOf (sem Cfg.preFix nilNumberScript (emptyInput [("n", "null")])) = some (.panic "nil-number") ∧
+    errOf (sem Cfg.fixed nilAmountScript (emptyInput [])) = none ∧
+    errOf (sem Cfg.fixed nilNumberScript (emptyInput [("n", "null")])) = some (.run "vars" "invalid") := by
+  refine ⟨?_, ?_, ?_, ?_⟩ <;> decide +kernel
 
-theorem welltyped_no_stack_fault_false : ¬ welltyped_no_stack_fault := by
+theorem welltyped_no_stack_fault_prefix_false : ¬ welltyped_no_stack_fault Cfg.preFix := by
   intro h
-  have hp := welltyped_no_stack_fault_counterexample.2
+  have hp := welltyped_no_stack_fault_prefix_counterexample.2.1
   have htc : ∃ ds, typecheck nilNumberScript = .ok ds := by
     cases ht : typecheck nilNumberScript with
     | ok ds => exact ⟨ds, rfl⟩
     | error e =>
       exfalso
-      have : errOf (sem nilNumberScript (emptyInput [("n", "null")])) = some (.compile e) := by
+      have : errOf (sem Cfg.preFix nilNumberScript (emptyInput [("n", "null")])) = some (.compile e) := by
         simp [sem, ht, errOf]
       rw [this] at hp; cases hp
   obtain ⟨ds, hds⟩ := htc
   have := (h nilNumberScript (emptyInput [("n", "null")]) ds hds "nil-number").1
   apply this
-  cases hs : sem nilNumberScript (emptyInput [("n", "null")]) with
+  cases hs : sem Cfg.preFix nilNumberScript (emptyInput [("n", "null")]) with
   | ok r => rw [hs] at hp; cases hp
   | error e => rw [hs] at hp; simp [errOf] at hp; rw [hp]
 
 /-! Non-vacuity (kernel-evaluated tests). -/
-example : errOf (sem nilNumberScript (emptyInput [("n", "12")])) = none := by decide +kernel
+example : errOf (sem Cfg.fixed nilNumberScript (emptyInput [("n", "12")])) = none := by decide +kernel
 example : typeExpr [("m", .monetary)] (.add (.var "m") (.mon (.asset "USD") 3)) = .ok .monetary := by
   decide +kernel
 
